@@ -39,6 +39,11 @@ class SweepRecorder:
         rec = self
 
         def grad(outputs, inputs, grad_outputs=None, retain_graph=None, create_graph=False, **kw):
+            # re-entrant call (a TorchFunctionMode such as torch.set_default_device re-dispatches the
+            # real torch.autograd.grad through this module attribute): not a new request
+            if rec._cur is not None and rec._cur.get("ok") is None and rec._cur.get("_entered"):
+                return rec._orig(outputs, inputs, grad_outputs=grad_outputs, retain_graph=retain_graph,
+                                 create_graph=create_graph, **kw)
             outs = [outputs] if isinstance(outputs, torch.Tensor) else list(outputs)
             gos = [] if grad_outputs is None else (
                 [grad_outputs] if isinstance(grad_outputs, torch.Tensor) else list(grad_outputs))
@@ -51,7 +56,7 @@ class SweepRecorder:
                   "ins": [id(i) for i in ([inputs] if isinstance(inputs, torch.Tensor) else list(inputs))],
                   "vmap": b, "rows": bs if b else 1,
                   "retain": bool(retain_graph) if retain_graph is not None else bool(create_graph),
-                  "ok": None}
+                  "ok": None, "_entered": True}
             rec.log.append(ev)
             prev, rec._cur = rec._cur, ev
             try:
